@@ -139,7 +139,77 @@ def gate(func, sink_ast, accept, extra_ok=None):
             return accepts(accept, n.ast, k == 'T')
         return False
     p = c.reach([c.entry], lambda n: n.id in ids, block_edge=block_edge)
-    return None if p is None else c.describe(p)
+    if p is None:
+        return None
+    # second chance: a test of a plain local (`if ok:`) establishes what the last value bound to it establishes
+    # (`ok = A and B` ... `if ok:`; `for _once..: if not A: ok = False; break ... ok = B; break`), followed per path
+    if _gate_through_flags(func, c, ids, accept):
+        return None
+    return c.describe(p)
+
+
+def _gate_through_flags(func, c, ids, accept):
+    """path search with the last binding of every tested flag variable as state; True if no ungated path reaches the sink"""
+    from collections import deque
+    flags = {n.ast.id for n in c.nodes if n.kind == 'test' and isinstance(n.ast, ast.Name)}
+    if not flags:
+        return False
+
+    def defs_of(n):
+        a = n.ast
+        if n.kind == 'stmt' and isinstance(a, ast.Assign) and len(a.targets) == 1 and isinstance(a.targets[0], ast.Name) and a.targets[0].id in flags:
+            return a.targets[0].id, a.value
+        return None
+    start = (c.entry.id, frozenset())
+    seen = {start}
+    dq = deque([(c.entry, frozenset())])
+    budget = 20000
+    while dq and budget > 0:
+        budget -= 1
+        n, st = dq.popleft()
+        for m, k in n.succ:
+            if n.kind == 'test' and k in ('T', 'F'):
+                if accepts(accept, n.ast, k == 'T'):
+                    continue
+                if isinstance(n.ast, ast.Name) and n.ast.id in flags:
+                    val = dict(st).get(n.ast.id)
+                    if val is not None:
+                        e = _node_by_id.get(val)
+                        if e is not None and _flag_establishes(e, k == 'T', accept):
+                            continue
+            if m.id in ids:
+                return False
+            st2 = st
+            d = defs_of(m)
+            if d is not None:
+                _node_by_id[id(d[1])] = d[1]
+                dd = dict(st)
+                dd[d[0]] = id(d[1])
+                st2 = frozenset(dd.items())
+            key = (m.id, st2)
+            if key in seen:
+                continue
+            seen.add(key)
+            dq.append((m, st2))
+    return budget > 0
+
+
+_node_by_id = {}
+
+
+def _flag_establishes(e, outcome, accept):
+    """does `flag = e` followed by the flag testing `outcome` establish an accepted fact?  Conjunctions taken true and disjunctions
+    taken false establish each of their operands"""
+    if isinstance(e, ast.Constant):
+        # `flag = False` then `if flag:` taken true is an infeasible path (and the other way round)
+        return bool(e.value) != outcome
+    if isinstance(e, ast.UnaryOp) and isinstance(e.op, ast.Not):
+        return _flag_establishes(e.operand, not outcome, accept)
+    if isinstance(e, ast.BoolOp):
+        if (isinstance(e.op, ast.And) and outcome) or (isinstance(e.op, ast.Or) and not outcome):
+            return any(_flag_establishes(v, outcome, accept) for v in e.values)
+        return False
+    return accepts(accept, e, outcome)
 
 
 def paired(func, acquire_stmt, is_release, include_exc=True):
